@@ -145,4 +145,43 @@ pub fn run(ctx: &mut Ctx) {
             }
         }
     }
+    // enums with data below a nullable struct-like parent: a missing parent writes a PLACEHOLDER row into the union (and into the first
+    // variant's child); the values that follow - of the first variant and of later ones, in one batch and across batches of one builder -
+    // must come back unchanged
+    {
+        #[derive(serde::Serialize, serde::Deserialize, PartialEq, Debug, Clone)]
+        #[serde(rename_all = "snake_case")]
+        enum Reading { RawCount(u32), Scaled { value: i16, exp: i8 }, Pair(u8, u8), Missing }
+        #[derive(serde::Serialize, serde::Deserialize, PartialEq, Debug, Clone)]
+        struct Sample { tag: i8, reading: Reading }
+        #[derive(serde::Serialize, serde::Deserialize, PartialEq, Debug, Clone)]
+        struct Holder { s: Option<Sample>, t: Option<(i8, Reading)>, l: Vec<Option<Sample>> }
+        let rd = |i: usize| match i % 4 { 0 => Reading::RawCount(17 + i as u32), 1 => Reading::Scaled { value: -(i as i16), exp: 3 }, 2 => Reading::Pair(i as u8, 9), _ => Reading::Missing };
+        let sm = |i: usize| Sample { tag: i as i8, reading: rd(i) };
+        let mut values: Vec<Holder> = vec![];
+        for i in 0..12usize {
+            values.push(Holder { s: if i % 3 == 0 { None } else { Some(sm(i + i / 3)) }, t: if i % 4 == 1 { None } else { Some((i as i8, rd(i / 2))) },
+                l: (0..i % 4).map(|k| if k == 0 { None } else { Some(sm(4 * k)) }).collect() });
+        }
+        for bits in [0u32, 2, 8] {
+            let mut o = TOpts::from_bits(bits); o.allow_null = true;   // the unit variant is a Null field
+            let r = guarded(|| -> Result<bool, String> {
+                let fields = Vec::<Field>::from_type::<Holder>(o.to_options()).map_err(|e| format!("from_type: {}", e))?;
+                let a = serde_arrow::to_marrow(&fields, &values).map_err(|e| format!("to_marrow: {}", e))?;
+                let v: Vec<_> = a.iter().map(|x| x.as_view()).collect();
+                let back: Vec<Holder> = serde_arrow::from_marrow(&fields, &v).map_err(|e| format!("from_marrow: {}", e))?;
+                // the same values as the second batch of a reused builder
+                let mut b = serde_arrow::ArrayBuilder::from_marrow(&fields).map_err(|e| e.to_string())?;
+                b.extend(&values[..5]).map_err(|e| e.to_string())?; b.to_marrow().map_err(|e| e.to_string())?;
+                b.extend(&values).map_err(|e| e.to_string())?; let a2 = b.to_marrow().map_err(|e| e.to_string())?;
+                let v2: Vec<_> = a2.iter().map(|x| x.as_view()).collect();
+                let back2: Vec<Holder> = serde_arrow::from_marrow(&fields, &v2).map_err(|e| format!("from_marrow: {}", e))?;
+                Ok(back == values && back2 == values)
+            });
+            match r {
+                Out::Ok(true) => ctx.count("enum_below_nullable_parent:ok"), Out::Ok(false) => ctx.fail(idx, "roundtrip_changes_values", format!("enums with data below nullable parents under {:?} came back changed", o)),
+                Out::Err(e) => ctx.fail(idx, "enum_below_nullable_parent_fails", e), Out::Panic(p) => ctx.fail(idx, "panic", p),
+            }
+        }
+    }
 }
